@@ -190,4 +190,17 @@ theorem mem_order_update {p q : Paragraph} {k : Bytes} :
   rw [order_update, List.mem_append, mem_newKeys]
   by_cases h : k ∈ p.order <;> simp [h]
 
+theorem update_inv (p q : Paragraph) (k : Bytes) :
+    k ∈ (p.update q).order ↔ (lookup k (p.update q).values).isSome = true := by
+  rw [mem_order_update, lookup_update]
+  by_cases h1 : k ∈ q.order
+  · simp [h1]
+  · by_cases h2 : k ∈ p.order <;> simp [h1, h2]
+
+theorem update_nodup {p q : Paragraph} (hp : p.order.Nodup) : (p.update q).order.Nodup := by
+  rw [order_update]
+  refine List.nodup_append.mpr ⟨hp, newKeys_nodup _ _, fun a ha b hb hab => ?_⟩
+  subst hab
+  exact (mem_newKeys.mp hb).2 ha
+
 end GoDebian.Lemmas.Codec
